@@ -196,6 +196,15 @@ def r1_user_level(run, w):
     return None
   tested = any(differs(x) is False for n in cfg.nodes if n.id in body and n.kind == "if"
                for x in ast.walk(n.stmt.test))
+  if not tested:
+    # a comparison made by a helper (or a comparison the rule cannot relate to the two values) is
+    # not the same as a loose comparison seen in place
+    for n in cfg.nodes:
+      if n.id in body and n.kind == "if":
+        for c in calls_in(n.stmt.test):
+          if dotted(c.func) != "strict_equal" and H.local_callee(w, fn, c) is not None:
+            raise AnalysisError("doModifyColumn: changed rows are selected by helper %s; cannot "
+                                "follow" % short(c, 60))
   run.ob(R1, fn.qualname, "if not strict_equal(<old value>, <converted value>):",
          "a row counts as changed whenever the converted value is not strictly equal (type "
          "included) to the old one", tested, fi=fn.fi)
@@ -227,6 +236,12 @@ def r1_user_level(run, w):
             [CF(x) for x in e2.args] == [rowvar]
         if e[0] == rowvar and e[1] == c_old and (e[2] == c_new or readback):
           recs.append((n, c.func.value.id, readback, rb_at))
+  in_body_helpers = [c for (n, c, nm) in fn.calls() if n.id in body and
+                     H.local_callee(w, fn, c) is not None]
+  if (not sets or not recs) and in_body_helpers:
+    raise AnalysisError("doModifyColumn: the write / the record of a changed row is not in the "
+                        "loop itself and %s could not be read in place"
+                        % short(in_body_helpers[0], 60))
   ok_set = bool(sets) and not (H.reach_assuming(cfg, first, differs, removed=sets) & stops)
   run.ob(R1, fn.qualname, "%s.set(%s, <converted value>)" % (newv, rowvar),
          "every differing row gets its converted value stored in the new column", ok_set, fi=fn.fi)
@@ -253,6 +268,10 @@ def r1_user_level(run, w):
          ok, fi=fn.fi)
   # add_changes(table_id, col_id, changes) whenever changes is non-empty
   adds = [(n, c) for (n, c, nm) in fn.calls() if E.is_summary_add_changes(c, nm, fn)]
+  if not adds and H.hidden_in_callees(w, fn, lambda c, nm, f: isinstance(c.func, ast.Attribute)
+                                      and c.func.attr == "add_changes", depth=3):
+    raise AnalysisError("doModifyColumn: summary.add_changes is only called inside a helper that "
+                        "could not be read in place")
   ok = False
   an = None
   nonempty = lambda e: H.nonempty_value(fn, e, chv)
@@ -297,6 +316,9 @@ def r1_user_level(run, w):
           except AnalysisError:
             outer = [None, None]
           fl.append((n, outer))
+  if not fl and H.hidden_in_callees(w, fn, is_flush, depth=3):
+    raise AnalysisError("doModifyColumn: flush_calc_changes_for_column is only called inside a "
+                        "helper that could not be followed")
   ok = False
   if len(fl) == 1 and an is not None:
     fnode, fargs = fl[0]
